@@ -58,6 +58,8 @@ def rewrites(s, q, q2, aq, aq2):
         ("sub-operator", {"op": "andnot", "a": aq, "b": aq2}, lambda: q - q2),
         ("with_boost", aq, lambda: q.with_boost(2.0)),
         ("replace-absent", aq, lambda: q.replace("body", u"zzz-not-a-term", u"yyy")),
+        # a (field, text) pair is absent as long as the field differs, whatever clause carries the text
+        ("replace-same-text-in-another-field", aq, lambda: _replace_elsewhere(q)),
         ("apply-identity", aq, lambda: q.apply(lambda x: x)),
         ("accept-identity", aq, lambda: q.accept(lambda x: x)),
         ("deepcopy", aq, lambda: copy.deepcopy(q)),
@@ -66,6 +68,13 @@ def rewrites(s, q, q2, aq, aq2):
         ("parser-roundtrip-normalize", aq, lambda: q.normalize().normalize()),
     ]
     return out
+
+
+def _replace_elsewhere(q):
+    texts = sorted(set(t for _, t in q.iter_all_terms())) if hasattr(q, "iter_all_terms") else []
+    for t in texts[:4]:
+        q = q.replace("no_such_field", t, u"yyy")
+    return q
 
 
 def check(run):
@@ -114,6 +123,12 @@ def check(run):
                                 twin["slop"] = 1
                             kids = [aq, twin] if rng.random() < 0.5 else [twin, aq]
                             aq = {"op": rng.choice(["or", "and"]), "kids": kids, "b4": 4}
+                    elif qi % 6 == 2 and rng.random() < 0.6:
+                        # an expanding term clause (at distance 0 it is the term itself) next to ordinary ones
+                        f = rng.choice(world.TEXT_FIELDS)
+                        fz = {"op": "fuzzy", "f": f, "t": world.rand_term(rng), "maxdist": 0, "prefix": 0, "b4": 4}
+                        aq = {"op": rng.choice(["and", "or"]), "kids": [fz, world.rand_query(rng, 0, ops=NOFUZZY)], "b4": 4} \
+                            if rng.random() < 0.6 else fz
                     elif qi % 6 == 3 and rng.random() < 0.6:
                         aq = world.rand_nested_query(rng)       # parent / child queries (wrap a query and a parent set)
                     aq2 = world.rand_query(rng, rng.randrange(0, 2), ops=NOFUZZY)
